@@ -66,7 +66,7 @@ Qed.
 Lemma C_store_expired st a k : C (store_expired st a k).
 Proof.
   intros w. unfold store_expired. destruct (aget key_eqb k _); [|apply C_put_store].
-  eapply cext_trans; [apply C_put_store|eapply C_neutral, n_store_callback].
+  eapply cext_trans; [|apply C_ghost]. eapply cext_trans; [apply C_put_store|eapply C_neutral, n_store_callback].
 Qed.
 Lemma C_store_stop_all_for_address st a : C (store_stop_all_for_address st a).
 Proof.
@@ -81,7 +81,9 @@ Proof.
 Qed.
 Lemma C_refresh_tail st ttl a k : C (fun w => fst (refresh_tail st ttl a k w)).
 Proof.
-  intros w. unfold refresh_tail. destruct (ttl =? TTL_FOREVER); [cbn [fst]; apply C_put_store|].
+  intros w0. unfold refresh_tail. cbv zeta. apply (cext_trans _ (ghost (GRefresh st a k ttl) w0)); [apply C_ghost|].
+  generalize (ghost (GRefresh st a k ttl) w0). clear w0. intros w.
+  destruct (ttl =? TTL_FOREVER); [cbn [fst]; apply C_put_store|].
   destruct (call_later (ttl * usec_per_sec) (HExpired st a k) w) as [t w'] eqn:Ec. cbn [fst].
   assert (w' = snd (call_later (ttl * usec_per_sec) (HExpired st a k) w)) as -> by (rewrite Ec; reflexivity).
   eapply cext_trans; [apply (C_call_later (ttl * usec_per_sec) (HExpired st a k) w I)|apply C_put_store].
